@@ -433,8 +433,8 @@ class FromArgs(Generic[T]):
     _hash_fn: Callable[[T], Hashable] = field(default=hash)
 
     def __setitem__(self, i: int, arg: T) -> None:
-        if i in self._i_to_arg:
-            assert self._i_to_arg[i] == arg
+        if i in self._i_to_arg and self._hash_fn(self._i_to_arg[i]) != self._hash_fn(arg):
+            raise ValueError(f"Two different args are at index {i}")
         self._i_to_arg[i] = arg
         self._arg_to_i[self._hash_fn(arg)] = i
 
@@ -445,6 +445,9 @@ class FromArgs(Generic[T]):
         return bool(self._i_to_arg)
 
     def to_tuple(self) -> Tuple[T, ...]:
+        # The indices were already used in the bytecode, so they cannot be changed
+        if set(self._i_to_arg) != set(range(len(self._i_to_arg))):
+            raise ValueError(f"Args have missing indices: {sorted(self._i_to_arg)}")
         return tuple(v for _, v, in sorted(self._i_to_arg.items()))
 
     def add(self, arg: T, index_override: Optional[int]) -> int:
